@@ -588,9 +588,9 @@ def _carry_cases():
 
 
 CLAUSES = [
-    Clause("invjac_is_leg_rate_per_spatial_twist", c_invjac, _jac_cases(), 300, 24000),
+    Clause("invjac_is_leg_rate_per_spatial_twist", c_invjac, _jac_cases(), 300, 20000),
     Clause("space_statics_equilibrium", c_space_statics, _space_cases(), 400, 24000),
-    Clause("body_statics_equilibrium", c_body_statics, _body_cases(), 300, 24000),
+    Clause("body_statics_equilibrium", c_body_statics, _body_cases(), 300, 20000),
     Clause("body_statics_explicit_pose", c_body_statics_args, _body_cases(), 200, 12000),
     Clause("carry_mass_equilibrium", c_carry_mass, _carry_cases(), 400, 24000),
 ]
